@@ -39,7 +39,7 @@ func zzDenomOf(k Keeper, ctx sdk.Context, chain types.ChainID, extId string) str
 func zzC12Opts() zzStateOpts {
 	o := zzStateOpts{maxPool: 2, maxBatches: 1, maxPerBatch: 1, concreteIds: true, chains: []types.ChainID{"ethereum"}}
 	if vrt.Thorough() {
-		o = zzStateOpts{maxPool: 2, maxBatches: 1, maxPerBatch: 2, symDecimals: true}
+		o = zzStateOpts{maxPool: 2, maxBatches: 1, maxPerBatch: 1, concreteIds: true, decChoice: true}
 	}
 	return o
 }
